@@ -816,7 +816,7 @@ def premise_residual(ctx, fac, PR, rule="R", mode="exact"):
 # -------------------------------------------------------------------------------------------------
 # E: entry wiring
 
-def premise_entry(ctx, rule="E", sizes=((FIVE, 5), (SIX, 6), (SEVEN, 7))):
+def premise_entry(ctx, rule="E", sizes=((FIVE, 5), (SIX, 6), (SEVEN, 7)), gate_total=False):
     rep, pdb = ctx.rep, ctx.pdb
     for path, n in sizes:
         h = ctx.hand(path, n)
@@ -854,6 +854,23 @@ def premise_entry(ctx, rule="E", sizes=((FIVE, 5), (SIX, 6), (SEVEN, 7))):
             for x in walk(r):
                 if x[0] == "call" and (x[1] in ("fn:" + k_valid, "fn:" + k_and) or x[1].startswith("fn:%s#" % k_and)):
                     rep.ob(rule + ".validity-gate-arg", "%s %s" % (short(path), x[1].split("::")[-1]), x[2][0] is h, "validated ranking checks or ranks a different hand than its receiver", pdb.where(k_g))
+            # and the ranking may only *run* behind the gate: unvalidated ranking of an invalid hand is allowed to
+            # panic (table index from junk bits), so evaluating it first and discarding the result is not the same
+            ranked = [(cal, gs_) for (cal, snap, gs_) in sm.ex.opaque_calls if cal == k_and]
+            ungated = None
+            for cal, gs_ in ranked:
+                env = {"$fn:" + k_valid: (lambda a: C(0, "bool")), "$fn:%s#0" % k_and: (lambda a: C(4242, "u16")),
+                       "$fn:" + k_and: (lambda a: agg(("tuple",), (C(4242, "u16"), UNIT)))}
+                env.update({"s%d" % i: 100 + i for i in range(n)})
+                try:
+                    reach = all(cval(evaluate(pdb, c, env)) for c in gs_)
+                except Uncertified:
+                    reach = True
+                if reach:
+                    ungated = len(gs_)
+            if gate_total:
+                rep.ob(rule + ".ranking-behind-gate", short(path), bool(ranked) and ungated is None,
+                       "hand_rank_value_validated runs the unvalidated ranking even when is_valid() is false (the ranking may panic on a hand that is not valid: the validated entry point must return 0 without ranking)" if ranked else "the validated ranking never ranks", pdb.where(k_g))
         ctx.guard(rule + ".gate", gate)
     def free():
         key = "evaluate::five_cards"
@@ -2055,7 +2072,7 @@ def check_C04(ctx):
         cnt += 1
     rep.floor("V.containers", cnt, 6)
     # the gate, for the three ranked sizes and the free function
-    premise_entry(ctx, "E", sizes=((FIVE, 5), (SIX, 6), (SEVEN, 7)))
+    premise_entry(ctx, "E", sizes=((FIVE, 5), (SIX, 6), (SEVEN, 7)), gate_total=True)
     # never panics: the invalid edge returns the constant 0 (gate) and validity itself has no reachable panic site
     def nopanic():
         for path, n in ((FIVE, 5), (SIX, 6), (SEVEN, 7)):
